@@ -328,7 +328,10 @@ def main(argv):
     try:
         hist, marks = [], []
         for variant, c, ls in HELPER_RUNS:
-            ev, mk, prev = [], [], 1
+            # (the helper effect of `reset` writes the page once when it is created: a second fetch before the first observation)
+            f0 = [int(x) for x in dict(p.split("=") for p in ls[0].split())["fetches"].split(",")]
+            ev = [("write", v) for v in f0[1:]]
+            mk, prev = [len(ev)], len(f0)
             for st, l in zip(c, ls[1:]):
                 f = [int(x) for x in dict(p.split("=") for p in l.split())["fetches"].split(",")]
                 ev += [("write", v) for v in f[prev:]]
@@ -343,16 +346,13 @@ def main(argv):
         outs = vlib.coq_eval(PID + "h", pre, exprs, per_file=max(1, (len(exprs) + 15) // 16))
         hmodel = [b.split("\n") for o in outs for b in o.split("\n==\n")]
         for (variant, c, ls), mk, ml in zip(HELPER_RUNS, marks, hmodel):
-            # (the initial helper write of `reset` starts a second fetch before the first observation: the model starts with one)
-            if variant == "reset":
-                continue
-            want = [ml[0]] + [ml[k] for k in mk]
+            want = [ml[k] for k in mk]
             got = [" ".join(p for p in l.split() if not p.startswith("fetches=")) for l in ls]
             if want != got:
                 hmis.append({"steps": [variant] + c, "impl": got, "model": want})
     except (RuntimeError, NameError, IndexError, KeyError) as e:
         broken.append("model evaluation (helper effect): " + str(e)[-500:])
-    chk.obligation("correspondence: the transition system fed with one write per fetch the implementation started agrees with it at every step of the clamp histories",
+    chk.obligation("correspondence: the transition system fed with one write per fetch the implementation started agrees with it at every step of the clamp and reset histories",
                    not hmis and not any(b.startswith("model evaluation (helper") for b in broken), str(hmis[:1]))
     if hmis:
         broken.append("correspondence (helper effect) differs on %d histories" % len(hmis))
